@@ -1,6 +1,6 @@
 (* C12 — async producer: the observable trace of every run is accepted by the observer automaton. *)
 From Coq Require Import List Arith Bool Lia.
-From SV Require Import C12.Lts C12.LtsProofs C12.Tac C12.Prod C12.ProdProofs C12.ProdSafety C12.ProdSim C12.ProdSimA C12.ProdSimB C12.ProdSimC C12.ProdSimD C12.ProdSimE C12.ProdSimF C12.ProdSimG C12.ProdSimH C12.ProdSimI C12.ProdSimJ.
+From SV Require Import C12.Lts C12.LtsProofs C12.Tac C12.Prod C12.ProdProofs C12.ProdSafety C12.ProdSim C12.ProdSim_01 C12.ProdSim_02 C12.ProdSim_03 C12.ProdSim_04.
 Import ListNotations.
 
 Module ProdA.
